@@ -267,6 +267,16 @@ impl UperWriter {
         self.bits.content()
     }
 
+    /// The content as it is embedded as open type: an empty encoding is replaced by a single
+    /// zero octet (ITU-T X.691 | ISO/IEC 8825-2:2015, chapter 11.2 with 11.1)
+    fn open_type_content(&self) -> &[u8] {
+        if self.bits.content().is_empty() {
+            &[0x00]
+        } else {
+            self.bits.content()
+        }
+    }
+
     pub const fn bit_len(&self) -> usize {
         self.bits.bit_len()
     }
@@ -334,7 +344,7 @@ impl UperWriter {
             let mut writer = UperWriter::with_capacity(512);
             let result = f(&mut writer)?;
             self.bits
-                .write_octetstring(None, None, false, writer.bits.content())?;
+                .write_octetstring(None, None, false, writer.open_type_content())?;
             Ok(result)
         } else {
             f(self)
@@ -493,7 +503,7 @@ impl Writer for UperWriter {
                 let mut writer = UperWriter::with_capacity(512);
                 choice.write_content(&mut writer)?;
                 w.bits
-                    .write_octetstring(None, None, false, writer.byte_content())
+                    .write_octetstring(None, None, false, writer.open_type_content())
             } else {
                 choice.write_content(w)
             }
